@@ -576,11 +576,14 @@ class Union(Structure, metaclass=UnionMetaType):
             cur_buf = b"\x00" * self.__class__.size
 
         buf = io.BytesIO(cur_buf)
-        field = self.__class__.lookup[attr]
+        if (field := self.__class__.lookup.get(attr)) is None:
+            # The attribute is a field of an anonymous structure that is folded into this union
+            field = next(f for f in self.__class__.lookup.values() if f.name is None and attr in f.type.fields)
+
         if field.offset:
             buf.seek(field.offset)
 
-        if (value := getattr(self, attr)) is None:
+        if (value := getattr(self, field._name)) is None:
             value = field.type.__default__()
 
         field.type._write(buf, value)
@@ -591,6 +594,10 @@ class Union(Structure, metaclass=UnionMetaType):
         # (Re-)proxify all values
         self._proxify()
 
+        if (parent := self.__dict__.get("_parent")) is not None:
+            # This union is (part of) a member of another union, which has to be rebuilt from the new bytes too
+            parent.__union__._rebuild(parent.__attr__)
+
     def _update(self) -> None:
         result, sizes = self.__class__._read_fields(io.BytesIO(self._buf))
         self.__dict__.update(result)
@@ -598,16 +605,21 @@ class Union(Structure, metaclass=UnionMetaType):
         object.__setattr__(self, "_sizes", sizes)
 
     def _proxify(self) -> None:
-        def _proxy_structure(value: Structure) -> None:
+        def _proxy_structure(value: Structure, member: str | None = None) -> None:
             for field in value.__class__.__fields__:
                 if issubclass(field.type, Structure):
                     nested_value = getattr(value, field._name)
                     if isinstance(nested_value, UnionProxy):
                         # Already proxied by a nested union
                         nested_value = nested_value.__target__
-                    proxy = UnionProxy(self, field._name, nested_value)
+                    # Whatever the depth, it's the member of this union that has to be written back
+                    proxy = UnionProxy(self, member or field._name, nested_value)
                     object.__setattr__(value, field._name, proxy)
-                    _proxy_structure(nested_value)
+                    if isinstance(nested_value, Union):
+                        # A nested union keeps its own proxies (they rebuild it) and reports its changes to this one
+                        object.__setattr__(nested_value, "_parent", proxy)
+                    else:
+                        _proxy_structure(nested_value, member or field._name)
 
         _proxy_structure(self)
 
